@@ -99,9 +99,13 @@ Section Decoders.
     dom _ <- get_uint48 wire;
     dom _ <- get_uint16 wire;
     dom _ <- get_counted_bytes wire 2;
-    dom _ <- get_struct wire [2; 2];
+    dom h <- get_struct wire [2; 2];
     dom _ <- get_counted_bytes wire 2;
-    ret tt.
+    (* the constructor: dns.rcode.Rcode.make(error) raises ValueError above 4095 *)
+    match h with
+    | [_; error] => if error >? 4095 then raise (XInt iValueError) else ret tt
+    | _ => raise (XInt iIndexError)
+    end.
 
   Definition dec_soa (origin : option name) : M unit :=
     dom _ <- get_name wire origin;
